@@ -118,6 +118,15 @@ func (f *c14Filter) OnReceive(ctx context.Context, headers api.HeaderMap, buf ap
 		if f.calls == 1 {
 			ret = api.StreamFilterReChooseHost
 		}
+	case "rematch2":
+		// asks again on the resumed pass
+		if f.calls <= 2 {
+			ret = api.StreamFilterReMatchRoute
+		}
+	case "rechoose2":
+		if f.calls <= 2 {
+			ret = api.StreamFilterReChooseHost
+		}
 	case "rematch-noroute":
 		// the usual reason for a re-match: the filter rewrote what routes match on - here to
 		// something no route matches, so the proxy ends the request while the pass is suspended
@@ -527,6 +536,22 @@ func TestVerifC14Filters(t *testing.T) {
 		sc.RetryOn, sc.NumRetries, sc.HijackCode, sc.Hosts = true, 1, 503, 2
 		sc.Name += " retry_on hijack=503"
 		scs = append(scs, sc)
+	}
+	// repeated re-match / re-choose: the request comes from a filter that is not the first of the chain, on a
+	// pass that was itself resumed (the resume position has to be absolute, not relative to where the pass started)
+	{
+		again := []hpFilter{{Phase: "after-route", Verdict: "rematch"}, {Phase: "after-route", Verdict: "rematch2"},
+			{Phase: "after-choose-host", Verdict: "rechoose"}, {Phase: "after-choose-host", Verdict: "rechoose2"}}
+		for _, ph := range []string{"before-route", "after-route", "after-choose-host"} {
+			for _, a := range again {
+				for _, b := range again {
+					sc := hpScenario{Hosts: 1, RouteTimeoutMs: 1000, Requests: []hpRequest{{Token: "t1", Body: true, Script: []string{upReply200}}}}
+					sc.Filters = []hpFilter{{Phase: ph, Verdict: "continue"}, a, b}
+					sc.Name = c14Name(&sc) + " repeated-resume"
+					scs = append(scs, sc)
+				}
+			}
+		}
 	}
 	// one-way requests have no response sender: a filter's denial must still keep them from the upstream
 	for _, sc := range c14Scenarios(vreport.Pick(1, 2), 1, []string{upReply200}) {
